@@ -120,6 +120,9 @@ var vPubProgs = []vPubProg{
 	{`boss = "x"`, []string{"boss"}},
 	{`boss.s = "x"`, []string{"boss.s"}},
 	{`boss.i > 1.5`, []string{"boss.i"}},
+	{`boss = "x" and boss.s = "y"`, []string{"boss", "boss.s"}},
+	{`boss.s = "y" or boss = "x" sort by boss.i`, []string{"boss.s", "boss", "boss.i"}},
+	{`tags.x = 1 and tags.y = 2`, []string{"tags.x"}},
 	{`anyOf(reports) = "x"`, []string{"reports"}},
 	{`anyOf(reports.s) = "x"`, []string{"reports.s"}},
 	{`isEmpty(from reports where s = "x")`, []string{"reports", "s"}},
@@ -167,7 +170,13 @@ func VerifC20_PublicSymbolValidation() {
 		allPublic = verifrt.And(allPublic, pub[i])
 		// the first segment of a dotted (linked) symbol being public says nothing
 		// about the dotted symbol itself - only map elements inherit
-		if dot := verifIndexByte(name, '.'); dot > 0 && name[:dot] != "tags" {
+		firstIsOwnSymbol := false
+		if dot := verifIndexByte(name, '.'); dot > 0 {
+			for _, other := range p.syms {
+				firstIsOwnSymbol = firstIsOwnSymbol || other == name[:dot]
+			}
+		}
+		if dot := verifIndexByte(name, '.'); dot > 0 && name[:dot] != "tags" && !firstIsOwnSymbol {
 			if verifrt.Bool("public.firstsegment." + name) {
 				store.MakeSymbolPublic(name[:dot])
 			}
